@@ -119,7 +119,7 @@ def encSmpHdr (m : Smp) (sub : Sub) : Bytes :=
   let typ := (if m.flg &&& FBIDIR ≠ 0 then 2 else if m.flg &&& FLOOP ≠ 0 then 1 else 0) +
              (if m.flg &&& F16BIT ≠ 0 then 0x10 else 0) + (if m.flg &&& FSTEREO ≠ 0 then 0x20 else 0)
   le32 (m.len * fb) ++ le32 (m.lps * fb) ++ le32 ((m.lpe - m.lps) * fb) ++
-  [u8 sub.vol, i8 sub.fin, u8 typ, u8 sub.pan, i8 sub.xpo, 0] ++ padTo 22 m.name
+  [u8 sub.vol, i8 sub.fin, u8 typ, u8 sub.pan.toNat, i8 sub.xpo, 0] ++ padTo 22 m.name
 
 structure SmpHdr where
   length : Nat
@@ -319,7 +319,7 @@ def PatOk (chn : Nat) (p : Pat) : Prop :=
 instance (chn : Nat) (p : Pat) : Decidable (PatOk chn p) := by unfold PatOk; infer_instance
 
 def SubOk (sid : Nat) (sub : Sub) : Prop :=
-  sub.sid = sid ∧ sub.vol ≤ 64 ∧ sub.pan < 256 ∧ -128 ≤ sub.xpo ∧ sub.xpo ≤ 127 ∧ -128 ≤ sub.fin ∧ sub.fin ≤ 127
+  sub.sid = sid ∧ sub.vol ≤ 64 ∧ 0 ≤ sub.pan ∧ sub.pan < 256 ∧ -128 ≤ sub.xpo ∧ sub.xpo ≤ 127 ∧ -128 ≤ sub.fin ∧ sub.fin ≤ 127
 instance (sid : Nat) (sub : Sub) : Decidable (SubOk sid sub) := by unfold SubOk; infer_instance
 
 def SubsOk : Nat → List Sub → Prop
